@@ -28,6 +28,41 @@ ASSUMPTIONS = ['smart types outside the closed description (AnyOf, Chain, NotOfT
                'overload ids are distinct within a family (FunctionDefinition identity)']
 
 
+def _o(fid, params, kind='function', nk=False):
+    return dict(id=fid, kind=kind, nk=nk, params=params)
+
+
+def _p(name, ty, **kw):
+    return dict(name=name, kind='pos', ty=ty, **kw)
+
+
+# hand-made cases run first: the Lean witnesses of Props/C05.lean and Props/C06.lean on the real code
+HAND = [
+    # A(D,D) B(L,Base) C(Base,R): A wins
+    dict(layers=[dict(fns=[_o(0, [_p('a', ['py', 'D', False]), _p('b', ['py', 'D', False])]),
+                           _o(1, [_p('a', ['py', 'L', False]), _p('b', ['py', 'Base', False])]),
+                           _o(2, [_p('a', ['py', 'Base', False]), _p('b', ['py', 'R', False])])], x=False)],
+         call=dict(args=[['tick', 1, 3], ['tick', 2, 3]], kw=[])),
+    # P(x: Lambda) Q(x: String): f(1) -> P (constant pre-check), f(<expr>) -> Ambiguous
+    dict(layers=[dict(fns=[_o(0, [_p('x', 'Lambda')]), _o(1, [_p('x', 'String')])], x=False)],
+         call=dict(args=[['c', 1]], kw=[])),
+    dict(layers=[dict(fns=[_o(0, [_p('x', 'Lambda')]), _o(1, [_p('x', 'String')])], x=False)],
+         call=dict(args=[['tick', 1, 8]], kw=[])),
+    dict(layers=[dict(fns=[_o(0, [_p('x', 'Lambda')]), _o(1, [_p('x', 'String')])], x=False)],
+         call=dict(args=[['m', ['kwc', 'x'], ['c', 1]]], kw=[])),
+    # nearer layer wins; exclusive layer hides
+    dict(layers=[dict(fns=[], x=False), dict(fns=[_o(0, [_p('a', ['py', 'Base', False])])], x=False),
+                 dict(fns=[_o(1, [_p('a', ['py', 'D', False])]), _o(2, [_p('a', ['py', 'str', False])])], x=False)],
+         call=dict(args=[['tick', 1, 3]], kw=[])),
+    dict(layers=[dict(fns=[], x=False), dict(fns=[_o(0, [_p('a', ['py', 'Base', False])])], x=True),
+                 dict(fns=[_o(1, [_p('a', ['py', 'D', False])]), _o(2, [_p('a', ['py', 'str', False])])], x=False)],
+         call=dict(args=[['c', 'a']], kw=[])),
+    # the recorded finding: Number() vs Integer() -> TypeError out of is_specialization_of
+    dict(layers=[dict(fns=[_o(0, [_p('x', 'Number')]), _o(1, [_p('x', 'Integer')])], x=False)],
+         call=dict(args=[['c', 1]], kw=[])),
+]
+
+
 def family_key(e):
     return 'spec-tuple-typeerror' if e == 'TypeError' else 'resolution'
 
@@ -153,7 +188,7 @@ def features(case, real, hist):
 def run(env, res):
     drv = env['driver']
     rng = common.make_rng(env['seed'], 'C05')
-    n_fam = 4000 if env['tier'] == 'quick' else 80000
+    n_fam = 12000 if env["tier"] == "quick" else 150000
     res.rule = ('random overload families (1-4 layers, 0-4 overloads per layer, parameters positional/defaulted/keyword-only/'
                 '*/**/hidden/lazy/constant over the lattice Base>L,R>D + int/str/object/NoneType) with 3 calls each derived '
                 'from a random overload\'s signature and mutated; distinct = distinct (family, call); non-trivial = '
@@ -169,6 +204,13 @@ def run(env, res):
             for kind, key, msg in fs:
                 res.fail(kind, key, msg, case)
         return res
+    for case in HAND:
+        fs, real, fam = run_case(case, drv)
+        res.case(common.digest(case), True)
+        res.traces += 1
+        features(case, real, hist)
+        for kind, key, msg in fs:
+            res.fail(kind, key, msg, case)
     batch = []
 
     def flush():
